@@ -90,7 +90,7 @@ def make_engine_overlay(pkgkey, files=None):
     return d
 
 
-def run_engine(pkgkey, jobs, workers=None, qtimeout_ms=20000, wall_timeout_s=3600, tests=False, tags=None, files=None):
+def run_engine(pkgkey, jobs, workers=None, qtimeout_ms=20000, wall_timeout_s=3600, tests=False, tags=None, files=None, budget_s=0):
     """Runs all jobs for one package; returns the list of JobResult dicts."""
     ensure_engine()
     workers = workers or WORKERS
@@ -104,6 +104,8 @@ def run_engine(pkgkey, jobs, workers=None, qtimeout_ms=20000, wall_timeout_s=360
            "-j", str(workers), "-solver", SOLVER, "-qtimeout", str(qtimeout_ms)]
     if tests:
         cmd.append("-tests")
+    if budget_s:
+        cmd += ["-budget", str(int(budget_s))]
     tags = tags or PKG_TAGS.get(pkgkey)
     if tags:
         cmd += ["-tags", tags]
